@@ -412,3 +412,66 @@ Proof.
   intros x cks post0 Hx Hc Hp. unfold fill_checks. apply fill_printed; try assumption.
   repeat rewrite app_length. pose proof (checks_text_length cks). simpl. lia.
 Qed.
+
+(** ** witnesses (concrete texts; evaluated by the kernel) *)
+Require Import Coq.Strings.String Coq.Strings.Ascii.
+Definition B (s : string) : bytes := List.map N_of_ascii (list_ascii_of_string s).
+
+(** the planner's own CREATE TABLE for a column whose DEFAULT is the string 'check (x)' *)
+Definition w_check_text : bytes := B "CREATE TABLE `t` (`a` int NULL, `b` text NULL DEFAULT 'check (x)')".
+Lemma w_check_phantom : fill_checks w_check_text = [(None, B "(x)")].
+Proof. vm_compute. reflexivity. Qed.
+
+(** the planner's own CREATE TABLE with generated columns cx and c *)
+Definition w_gen_text : bytes :=
+  B "CREATE TABLE `t` (`a` int NULL, `cx` int NULL AS (a + 1) STORED, `c` int NULL AS (a * 2) STORED)".
+Lemma w_gen_prefix : set_gen_expr (B "c") w_gen_text = GenOk (B "(a + 1)") /\
+                     set_gen_expr (B "cx") w_gen_text = GenOk (B "(a + 1)").
+Proof. vm_compute. split; reflexivity. Qed.
+
+(** a string holding AS ( inside a generated expression (planner's text) *)
+Definition w_gen_as_text : bytes := B "CREATE TABLE `t` (`k` int NULL, `g` int NULL AS (k || 'AS (x') VIRTUAL)".
+Lemma w_gen_as : set_gen_expr (B "g") w_gen_as_text = GenOk (B "(x')").
+Proof. vm_compute. reflexivity. Qed.
+
+(** AUTOINCREMENT: bracket-quoted column; the letters in a later name *)
+Definition w_auto_bracket : bytes := B "CREATE TABLE t ([id] integer PRIMARY KEY AUTOINCREMENT, b int)".
+Definition w_auto_phantom : bytes := B "CREATE TABLE t (id integer PRIMARY KEY NOT NULL CHECK (autoincrement_x > 0), autoincrement_x int)".
+Lemma w_autoinc : autoinc w_auto_bracket [B "id"; B "b"] [B "id"] = AutoNone /\
+                  autoinc w_auto_phantom [B "id"; B "autoincrement_x"] [B "id"] = AutoOk (B "id").
+Proof. vm_compute. split; reflexivity. Qed.
+
+(** partial index predicate *)
+Lemma w_where : index_predicate (B "CREATE INDEX `ix_WHERE_y` ON `t` (`a`) WHERE a > 0") = Some (B "_y` ON `t` (`a`) WHERE a > 0") /\
+                index_predicate (B "CREATE INDEX i on t (a) where a > 0") = None.
+Proof. vm_compute. split; reflexivity. Qed.
+
+(** foreign-key names: bracket quoting; two keys of the same shape *)
+Definition w_fk_text : bytes := B "CREATE TABLE c (pid int CONSTRAINT myfk REFERENCES p (id) ON DELETE CASCADE, CONSTRAINT fk2 FOREIGN KEY (pid) REFERENCES p (id))".
+Lemma w_fk_same_shape :
+  map pf_symbol (fill_const_name w_fk_text [mkPfk (B "0") [B "pid"] (B "p") [B "id"]; mkPfk (B "1") [B "pid"] (B "p") [B "id"]])
+  = [B "myfk"; B "1"].
+Proof. vm_compute. reflexivity. Qed.
+
+(** non-vacuity of the printer theorem *)
+Definition w_cks : list (option bytes * bytes) := [(Some (B "ck"), B "(a > 0 AND b <> ')')"); (None, B "(length(b) > (1))")].
+Lemma w_cks_ok : Forall check_ok w_cks.
+Proof.
+  repeat constructor; simpl; try (intro; discriminate).
+  - exists (B "a > 0 AND b <> ')'"), 0%nat. split; [reflexivity|].
+    change (B "a > 0 AND b <> ')'") with (B "a > 0 AND b <> " ++ ch_sq :: [ch_rp] ++ ch_sq :: []).
+    assert (forall l, forallb plain l = true -> forall t p, bal t p -> bal (l ++ t) p) as Hpl.
+    { induction l; simpl; intros H t p Ht; [exact Ht|]. apply andb_true_iff in H. destruct H. apply bal_ch; auto. }
+    apply Hpl; [reflexivity|]. apply bal_str; [reflexivity| |constructor].
+    intros [H|[]]. discriminate.
+  - exists (B "length(b) > (1)"), 2%nat. split; [reflexivity|].
+    change (B "length(b) > (1)") with (B "length" ++ ch_lp :: B "b" ++ ch_rp :: (B " > " ++ ch_lp :: B "1" ++ ch_rp :: [])).
+    assert (forall l, forallb plain l = true -> forall t p, bal t p -> bal (l ++ t) p) as Hpl.
+    { induction l; simpl; intros H t p Ht; [exact Ht|]. apply andb_true_iff in H. destruct H. apply bal_ch; auto. }
+    apply Hpl; [reflexivity|].
+    apply (bal_par (B "b") 0 _ 1).
+    + apply (Hpl (B "b") eq_refl [] 0%nat). constructor.
+    + apply Hpl; [reflexivity|]. apply (bal_par (B "1") 0 [] 0).
+      * apply (Hpl (B "1") eq_refl [] 0%nat). constructor.
+      * constructor.
+Qed.
